@@ -12,7 +12,7 @@ from lib.coqterm import cbool, cbytes, cN, cZ, clist, copt, hx, unhx
 
 ID = "C50"
 QUICK_N = 1200
-THOROUGH_N = 24000
+THOROUGH_N = 6000
 SHARD = 250
 RULE = ("40% real registry: a message (HTTP request/response with content-type / content-encoding, TCP, UDP, WebSocket "
         "text/binary, DNS) whose body is a structured sample for one of the registered views (JSON, XML/HTML, CSS, JS, GraphQL, "
